@@ -6,9 +6,9 @@
 (*  - AlignDown is the arithmetic shift right by one limb.                                            *)
 EXTENDS TeakAlu, TLC
 
-VARIABLE x
-Init == x = 0
-Next == x' \in 0 .. B - 1
+VARIABLE vX
+Init == vX = 0
+Next == vX' \in 0 .. B - 1
 
 SInt(v, signed) == IF signed /\ v >= HB THEN v - B ELSE v
 PInt(p, pe) == p[1] + B * p[2] - pe * (B * B)              \* (2W+1)-bit two's complement reading
@@ -18,21 +18,21 @@ MultiplyExact ==
     \A y \in 0 .. B - 1 : \A xs \in BOOLEAN : \A ys \in BOOLEAN : \A hwm \in 0 .. 3 : \A unit \in 0 .. 1 :
         LET y1 == IF hwm = 1 \/ (hwm = 3 /\ unit = 0) THEN y \div EB
                   ELSE IF hwm = 2 \/ (hwm = 3 /\ unit = 1) THEN y % EB ELSE y
-            r  == Multiply(x, y, xs, ys, hwm, unit)
-        IN  PInt(r.p, r.pe) = SInt(x, xs) * SInt(y1, ys)
+            r  == Multiply(vX, y, xs, ys, hwm, unit)
+        IN  PInt(r.p, r.pe) = SInt(vX, xs) * SInt(y1, ys)
 
 \* every (pe : p) pair that a multiplication can produce lies in this range; ProductToBus is checked on all
-\* 33-bit patterns whose high limb is x (low limb quantified), i.e. on every product register content
+\* 33-bit patterns whose high limb is vX (low limb quantified), i.e. on every product register content
 ProductToBusExact ==
     \A l \in {0, 1, 2, B \div 4, HB - 1, HB, B - 2, B - 1} : \A pe \in 0 .. 1 : \A ps \in 0 .. 3 :
-        LET p == <<l, x>>
+        LET p == <<l, vX>>
             n == PInt(p, pe)
             want == CASE ps = 0 -> n [] ps = 1 -> FloorDiv2(n) [] ps = 2 -> 2 * n [] ps = 3 -> 4 * n
         IN  AToInt(ProductToBus(p, pe, ps)) = want
 
 AlignExact ==
     \A l \in {0, 1, HB, B - 1} : \A e \in 0 .. EB - 1 :
-        LET v == <<l, x, e>>
+        LET v == <<l, vX, e>>
             n == AToInt(v)
             fl == IF n >= 0 THEN n \div B ELSE -((-n + B - 1) \div B)
         IN  AToInt(AlignDown(v)) = fl
